@@ -201,6 +201,13 @@ fn clear_done_here() -> u64 {
 }
 /// Other emissions, by name, for engines that want them.
 pub static EMITS: std::sync::Mutex<Vec<(String, String)>> = std::sync::Mutex::new(Vec::new());
+/// Number of emissions per (name, detail) - what the engines poll (the list above would make every
+/// poll linear in the length of the run).
+static EMIT_COUNTS: std::sync::Mutex<Option<std::collections::HashMap<(String, String), usize>>> = std::sync::Mutex::new(None);
+
+pub fn emit_count(name: &str, detail: &str) -> usize {
+    EMIT_COUNTS.lock().unwrap().as_ref().and_then(|m| m.get(&(name.to_string(), detail.to_string())).copied()).unwrap_or(0)
+}
 
 pub fn install_emit_handler() {
     klukai_types::verif::set_emit_handler(Some(Arc::new(|name: &str, detail: &str| {
@@ -219,7 +226,7 @@ pub fn install_emit_handler() {
                 }
             }
         } else {
-            EMITS.lock().unwrap().push((name.to_string(), detail.to_string()));
+            *EMIT_COUNTS.lock().unwrap().get_or_insert_with(Default::default).entry((name.to_string(), detail.to_string())).or_insert(0) += 1;
         }
     })));
 }
